@@ -254,25 +254,24 @@ impl Service {
     /// 刷新重新纳入本节点管理的实例
     /// 增量http实例增加过期管理
     pub(crate) fn do_refresh_process_range(&mut self) {
-        let instances: Vec<&Arc<Instance>> = self
+        // instances copied from another node whose service is now in this node's range: this node is their owner
+        // from now on, so they must be subject to the heartbeat clock (is_enable_timeout needs from_cluster == 0),
+        // exactly as NamingActor::update_instance does when the first heartbeat arrives here
+        let keys: Vec<InstanceShortKey> = self
             .instances
             .values()
             .filter(|instance| !instance.from_grpc && instance.is_from_cluster())
+            .map(|instance| instance.get_short_key())
             .collect();
-        //log::info!("do_refresh_process_range instance size:{}", instances.len());
-        for instance in instances {
-            /*
-            log::info!(
-                "do_refresh_process_range item,key:{:?},last_modified_millis:{},client_id:{}",
-                instance.get_short_key(),
-                instance.last_modified_millis,
-                &instance.client_id
-            );
-             */
-            self.healthy_timeout_set.add(
-                instance.last_modified_millis as u64,
-                instance.get_short_key(),
-            );
+        for key in keys {
+            if let Some(old) = self.instances.get(&key) {
+                let mut instance = old.as_ref().clone();
+                instance.from_cluster = 0;
+                instance.client_id = EMPTY_ARC_STRING.clone();
+                self.healthy_timeout_set
+                    .add(instance.last_modified_millis as u64, key.clone());
+                self.instances.insert(key, Arc::new(instance));
+            }
         }
     }
 
